@@ -832,6 +832,11 @@ class Dual:
 
     def eq(self, a, b, tol=0.0):
         if self.sym:
+            if tol and not core.is_sym(a) and not core.is_sym(b) and core.is_numeric(a) and core.is_numeric(b):
+                # both sides are concrete floats (the path computed them with real float arithmetic): compare like the
+                # concrete replay does, within the stated tolerance
+                fa, fb = float(a), float(b)
+                return (fa != fa and fb != fb) or abs(fa - fb) <= tol * max(1.0, abs(fa), abs(fb)) or fa == fb
             e = core.boolexpr(core.s_eq(a, b))
             if core.is_floatish(a) and core.is_floatish(b):
                 e = core.b_or(e, core.b_and(core.boolexpr(core.s_isnan(a)), core.boolexpr(core.s_isnan(b))))
